@@ -245,10 +245,7 @@ def canon_model_events(evs):
     for e in evs.split(","):
         if e.startswith("o") and ":" in e:
             head, opt = e.split(":", 1)
-            if "socket." in opt:
-                out.append(head + ":" + canon_opt(opt))
-            else:
-                out.append(head + ":" + canon_opt(bytes.fromhex(opt).decode()))
+            out.append(head + ":" + canon_opt(opt))
         else:
             out.append(e)
     return ",".join(out)
